@@ -79,26 +79,33 @@ Proof. vm_compute. repeat split. Qed.
 
 (* ---- a stop between the last counted shard and the hand-over of the drop request
    (model: C04/StopMid.v, cases of harness h_reader -mode c04s checked by C04.SMCheck) ---- *)
-Require Verif.C04.StopMid Verif.C04.StopMidProofs Verif.C04.SMCheck.
+Require Verif.C04.StopMid Verif.C04.StopMidProofs Verif.C04.SMCheck Verif.C04.SMCheckProofs.
 
 (* for every history of starts, stops, shards reading the drop message and stops that close the barrier right before the
    hand-over - whichever way the callback then takes -: the collection is marked dropped exactly when the one request has
    been handed over, and a marked collection is not read *)
 Theorem C04_stop_before_handover_every_history : forall shards ls,
   let s := StopMid.run StopMid.cfg_now shards StopMid.init ls in
-  (StopMid.marked s = true /\ StopMid.reqs s = 1 /\ StopMid.reading s = false) \/ (StopMid.marked s = false /\ StopMid.reqs s = 0).
+  (StopMid.marked s = true /\ StopMid.reqs s = 1%nat /\ StopMid.reading s = false) \/ (StopMid.marked s = false /\ StopMid.reqs s = 0%nat).
 Proof. exact StopMidProofs.stopmid_every_history. Qed.
 Print Assumptions C04_stop_before_handover_every_history.
 
 (* whatever happened before: once the collection has been started again and every shard has read the drop message,
    exactly one request has been handed over in total *)
-Theorem C04_one_request_after_restart : forall shards ls, 1 <= shards ->
-  StopMid.reqs (StopMid.run StopMid.cfg_now shards StopMid.init (ls ++ StopMid.LStop :: StopMid.LStart :: repeat StopMid.LRead shards)) = 1.
+Theorem C04_one_request_after_restart : forall shards ls, (1 <= shards)%nat ->
+  StopMid.reqs (StopMid.run StopMid.cfg_now shards StopMid.init (ls ++ StopMid.LStop :: StopMid.LStart :: repeat StopMid.LRead shards)) = 1%nat.
 Proof. exact StopMidProofs.one_request_after_restart. Qed.
 Print Assumptions C04_one_request_after_restart.
 
 (* with the mark set before the hand-over the drop is lost when the stop wins *)
 Theorem C04_early_mark_refuted : exists ls,
-  StopMid.reqs (StopMid.run StopMid.cfg_early 1 StopMid.init (ls ++ StopMid.LStop :: StopMid.LStart :: repeat StopMid.LRead 1)) <> 1.
+  StopMid.reqs (StopMid.run StopMid.cfg_early 1%nat StopMid.init (ls ++ StopMid.LStop :: StopMid.LStart :: repeat StopMid.LRead 1%nat)) <> 1%nat.
 Proof. exact StopMidProofs.early_mark_refuted. Qed.
 Print Assumptions C04_early_mark_refuted.
+
+(* the checker evaluated on the implementation's request counts accepts every trace of this model *)
+Theorem C04_stopmid_checker_accepts_model : forall k,
+  (1 <= SMCheck.sm_shards k)%nat ->
+  SMCheck.sm_reqs k = StopMid.trace StopMid.cfg_now (SMCheck.sm_shards k) StopMid.init (SMCheck.sm_ops k) -> SMCheck.check_C04s k = true.
+Proof. exact SMCheckProofs.model_traces_accepted. Qed.
+Print Assumptions C04_stopmid_checker_accepts_model.
